@@ -41,6 +41,7 @@ type Exec struct {
 	usedSpecs  map[string]*FuncSpec
 	wsCache    map[*ssa.Function]map[string]bool
 	globalByRef map[string]*ssa.Global
+	epochFrames map[int]*epochFrame
 }
 
 type modLoc struct {
@@ -111,14 +112,27 @@ func (e *Exec) oblige(fr *frame, st *State, kind, desc string, pos token.Pos, go
 	full := fr.prefix + "#" + kind
 	e.obCount[full]++
 	name := fmt.Sprintf("%s@%d", full, e.obCount[full])
-	o := &Obligation{Name: name, Kind: base, Func: e.key, Pos: e.w.pos(pos), Desc: desc,
-		nhyps: len(e.ctx.hyps), pc: st.pc, goal: goal, ctx: e.ctx}
-	if e.spec != nil {
-		o.Props = e.spec.Props
+	parts := splitGoal(goal)
+	var first *Obligation
+	nh := len(e.ctx.hyps)
+	for i, g := range parts {
+		o := &Obligation{Name: name, Kind: base, Func: e.key, Pos: e.w.pos(pos), Desc: desc,
+			nhyps: nh, pc: st.pc, goal: g, ctx: e.ctx}
+		if len(parts) > 1 {
+			o.Name = fmt.Sprintf("%s.%d", name, i+1)
+			o.Desc = fmt.Sprintf("%s [conjunct %d of %d]", desc, i+1, len(parts))
+		}
+		if e.spec != nil {
+			o.Props = e.spec.Props
+		}
+		o.Soft = base == "ovf"
+		e.ctx.obls = append(e.ctx.obls, o)
+		if first == nil {
+			first = o
+		}
 	}
-	e.ctx.obls = append(e.ctx.obls, o)
 	e.ctx.assume(imp(st.pc, goal))
-	return o
+	return first
 }
 
 // ---------------------------------------------------------------- loops
